@@ -123,6 +123,7 @@ func checkC05(ctx *Ctx, r *Report) {
 	c07ReferenceByBareName(ctx, r)
 	c05FourthRound(ctx, r)
 	c05FifthRound(ctx, r)
+	c05SixthRound(ctx, r)
 	c01DefinitionIdentity(ctx, r)
 }
 
@@ -2428,4 +2429,340 @@ func c05FifthRound(ctx *Ctx, r *Report) {
 	}
 	r.Count("hunted clauses of the reference rules (5th round)", n)
 	r.Floor("hunted clauses of the reference rules (5th round)", 4)
+}
+
+// c05SixthRound — fourth hunt:
+//   - unspec drops the envelope's `metadata` object: the schemas' own object of that name, which they refer to, stays —
+//     the test that drops it also consults the set of referred objects, built by a Visitor following both reference kinds;
+//   - RemoveIntersections: the Visitor that redirects references to the objects the pass removes also redirects the
+//     *names* kept next to references — discriminator mappings (OnDisjunction) and the union kept in the hints of a
+//     struct generated from a disjunction (OnStruct);
+//   - a kind registry is one input made of several packages: `allowed_objects` is applied once, over all of them (the
+//     per-kind loaders, which filter one package at a time, get no `allowed_objects`).
+func c05SixthRound(ctx *Ctx, r *Report) {
+	n := 0
+	cp := ctx.Pkg("internal/ast/compiler")
+	if cp == nil {
+		r.Undecided("anchor lost: internal/ast/compiler")
+		return
+	}
+	info := cp.TypesInfo
+	visitorHandlers := func(cl *ast.CompositeLit) map[string]ast.Expr {
+		out := map[string]ast.Expr{}
+		for _, el := range cl.Elts {
+			if kv, ok := el.(*ast.KeyValueExpr); ok {
+				out[exprString(kv.Key)] = kv.Value
+			}
+		}
+		return out
+	}
+	// (a)
+	if named := ctx.LookupType("internal/ast/compiler", "Unspec"); named == nil {
+		r.Undecided("anchor lost: compiler.Unspec")
+	} else {
+		// methods of the pass returning a map and holding a Visitor with OnRef and OnConstantRef: reference collectors
+		collectors := map[*types.Func]bool{}
+		for _, fd := range methodsOf(ctx, named) {
+			fobj, _ := info.Defs[fd.Name].(*types.Func)
+			if fobj == nil {
+				continue
+			}
+			sig := fobj.Type().(*types.Signature)
+			if sig.Results().Len() != 1 {
+				continue
+			}
+			if _, isMap := sig.Results().At(0).Type().Underlying().(*types.Map); !isMap {
+				continue
+			}
+			ast.Inspect(fd.Body, func(m ast.Node) bool {
+				if cl, ok := m.(*ast.CompositeLit); ok && namedName(info.TypeOf(cl)) == "Visitor" {
+					h := visitorHandlers(cl)
+					if h["OnRef"] != nil && h["OnConstantRef"] != nil {
+						collectors[fobj] = true
+					}
+				}
+				return true
+			})
+		}
+		// the closure that drops `metadata`
+		found := 0
+		for _, fd := range methodsOf(ctx, named) {
+			ast.Inspect(fd.Body, func(m ast.Node) bool {
+				fl, ok := m.(*ast.FuncLit)
+				if !ok {
+					return true
+				}
+				drops := false
+				ast.Inspect(fl.Body, func(k ast.Node) bool {
+					if bl, ok := k.(*ast.BasicLit); ok && bl.Value == `"metadata"` {
+						drops = true
+					}
+					return true
+				})
+				if !drops {
+					return true
+				}
+				found++
+				// a map defined outside the closure is looked up with the object's reference
+				var consulted []types.Object
+				ast.Inspect(fl.Body, func(k ast.Node) bool {
+					ix, ok := k.(*ast.IndexExpr)
+					if !ok {
+						return true
+					}
+					id, ok := ast.Unparen(ix.X).(*ast.Ident)
+					if !ok {
+						return true
+					}
+					o := objOf(info, id)
+					if o == nil || (o.Pos() >= fl.Pos() && o.Pos() <= fl.End()) {
+						return true
+					}
+					if _, isMap := o.Type().Underlying().(*types.Map); isMap && strings.Contains(exprString(ix.Index), "SelfRef") {
+						consulted = append(consulted, o)
+					}
+					return true
+				})
+				// that map comes from a reference collector: a parameter fed by the caller, or a local variable
+				fromCollector := false
+				isCollectorCall := func(e ast.Expr) bool {
+					c, ok := ast.Unparen(e).(*ast.CallExpr)
+					return ok && collectors[callee(info, c)]
+				}
+				collectorVars := func(body ast.Node) map[types.Object]bool {
+					out := map[types.Object]bool{}
+					ast.Inspect(body, func(k ast.Node) bool {
+						if as, ok := k.(*ast.AssignStmt); ok && len(as.Lhs) == 1 && len(as.Rhs) == 1 && isCollectorCall(as.Rhs[0]) {
+							if id, ok := as.Lhs[0].(*ast.Ident); ok {
+								out[objOf(info, id)] = true
+							}
+						}
+						return true
+					})
+					return out
+				}
+				self, _ := info.Defs[fd.Name].(*types.Func)
+				for _, o := range consulted {
+					if collectorVars(fd.Body)[o] {
+						fromCollector = true
+					}
+					// a parameter of the enclosing method
+					sig := self.Type().(*types.Signature)
+					for i := 0; i < sig.Params().Len(); i++ {
+						if sig.Params().At(i) != o {
+							continue
+						}
+						for _, caller := range methodsOf(ctx, named) {
+							vars := collectorVars(caller.Body)
+							ast.Inspect(caller.Body, func(k ast.Node) bool {
+								c, ok := k.(*ast.CallExpr)
+								if !ok || callee(info, c) != self || i >= len(c.Args) {
+									return true
+								}
+								if isCollectorCall(c.Args[i]) {
+									fromCollector = true
+								}
+								if id, ok := ast.Unparen(c.Args[i]).(*ast.Ident); ok && vars[objOf(info, id)] {
+									fromCollector = true
+								}
+								return true
+							})
+						}
+					}
+				}
+				r.Check(fromCollector, "effects/unspec-keeps-referenced-metadata", ctx.FuncName(self)+" drops the object called metadata", fl.Pos(), "unless the set of referred objects (collected over OnRef and OnConstantRef) holds it",
+					"unspec drops every object called `metadata` without asking whether the schemas refer to it: `spec: {meta: #Metadata}; #Metadata: {…}` ends with spec.meta → a reference to an object that is gone")
+				return true
+			})
+		}
+		if found == 0 {
+			r.Undecided("anchor changed: no closure of compiler.Unspec drops the object called metadata")
+		}
+		n++
+	}
+	// (b)
+	if named := ctx.LookupType("internal/ast/compiler", "RemoveIntersections"); named == nil {
+		r.Undecided("anchor lost: compiler.RemoveIntersections")
+	} else {
+		reaches := func(e ast.Expr, test func(fd *ast.FuncDecl) bool) bool {
+			sel, ok := ast.Unparen(e).(*ast.SelectorExpr)
+			if !ok {
+				return false
+			}
+			start, _ := info.Uses[sel.Sel].(*types.Func)
+			seen := map[*types.Func]bool{}
+			var rec func(fn *types.Func, depth int) bool
+			rec = func(fn *types.Func, depth int) bool {
+				if fn == nil || seen[fn] || depth > 2 {
+					return false
+				}
+				seen[fn] = true
+				fd, _ := ctx.DeclOf(fn)
+				if fd == nil || fd.Body == nil {
+					return false
+				}
+				if test(fd) {
+					return true
+				}
+				ok := false
+				ast.Inspect(fd.Body, func(m ast.Node) bool {
+					if c, isCall := m.(*ast.CallExpr); isCall {
+						if f := callee(info, c); f != nil && f.Pkg() == cp.Types && rec(f, depth+1) {
+							ok = true
+						}
+					}
+					return true
+				})
+				return ok
+			}
+			return rec(start, 0)
+		}
+		storesMapping := func(fd *ast.FuncDecl) bool {
+			ok := false
+			ast.Inspect(fd.Body, func(m ast.Node) bool {
+				if as, isAssign := m.(*ast.AssignStmt); isAssign {
+					for _, l := range as.Lhs {
+						if strings.Contains(exprString(l), "DiscriminatorMapping") {
+							ok = true
+						}
+					}
+				}
+				return true
+			})
+			return ok
+		}
+		readsHint := func(fd *ast.FuncDecl) bool {
+			ok := false
+			ast.Inspect(fd.Body, func(m ast.Node) bool {
+				if id, isID := m.(*ast.Ident); isID {
+					if c, isConst := info.Uses[id].(*types.Const); isConst && c.Name() == "HintDiscriminatedDisjunctionOfRefs" {
+						ok = true
+					}
+				}
+				return true
+			})
+			return ok
+		}
+		redirectors := 0
+		for _, fd := range methodsOf(ctx, named) {
+			ast.Inspect(fd.Body, func(m ast.Node) bool {
+				cl, ok := m.(*ast.CompositeLit)
+				if !ok || namedName(info.TypeOf(cl)) != "Visitor" {
+					return true
+				}
+				h := visitorHandlers(cl)
+				if h["OnRef"] == nil {
+					return true
+				}
+				redirectors++
+				r.Check(h["OnDisjunction"] != nil && reaches(h["OnDisjunction"], storesMapping), "traverse/removed-object-mappings-rewritten", "RemoveIntersections redirects discriminator mappings", cl.Pos(), "the redirecting Visitor has an OnDisjunction handler that rewrites the mapping",
+					"RemoveIntersections redirects the references to the objects it removes and leaves the discriminator mapping of the unions that hold them: `Shape: #Circle | #Alias` with `#Alias: #Square` ends with the branch Square and the mapping entry `alias → Alias`, an object that is gone")
+				r.Check(h["OnStruct"] != nil && reaches(h["OnStruct"], readsHint), "traverse/removed-object-mappings-rewritten", "RemoveIntersections redirects the union kept in hints", cl.Pos(), "the redirecting Visitor has an OnStruct handler that reads the disjunction_of_refs hint",
+					"RemoveIntersections redirects the references to the objects it removes and leaves the union kept in the hints of a struct generated from a disjunction: the Java unmarshaller of `CircleOrAlias` is generated from a branch and a mapping that name Alias, a class that does not exist")
+				return true
+			})
+		}
+		if redirectors == 0 {
+			r.Undecided("anchor changed: RemoveIntersections has no Visitor with an OnRef handler")
+		}
+		n++
+	}
+	// (c)
+	if gp := ctx.Pkg("internal/codegen"); gp == nil {
+		r.Undecided("anchor lost: internal/codegen")
+	} else if named := ctx.LookupType("internal/codegen", "KindRegistryInput"); named == nil {
+		r.Undecided("anchor lost: codegen.KindRegistryInput")
+	} else {
+		ginfo := gp.TypesInfo
+		var load *ast.FuncDecl
+		for _, fd := range methodsOf(ctx, named) {
+			if fd.Name.Name == "LoadSchemas" {
+				load = fd
+			}
+		}
+		if load == nil {
+			r.Undecided("anchor lost: codegen.KindRegistryInput.LoadSchemas")
+		} else {
+			// local variables whose AllowedObjects is emptied
+			emptied := map[types.Object]bool{}
+			ast.Inspect(load.Body, func(m ast.Node) bool {
+				as, ok := m.(*ast.AssignStmt)
+				if !ok || len(as.Lhs) != 1 || len(as.Rhs) != 1 {
+					return true
+				}
+				sel, ok := ast.Unparen(as.Lhs[0]).(*ast.SelectorExpr)
+				if !ok || sel.Sel.Name != "AllowedObjects" {
+					return true
+				}
+				id, ok := ast.Unparen(sel.X).(*ast.Ident)
+				if !ok {
+					return true
+				}
+				if isNilIdent(ginfo, as.Rhs[0]) {
+					emptied[objOf(ginfo, id)] = true
+				}
+				return true
+			})
+			lits, bad := 0, 0
+			ast.Inspect(load.Body, func(m ast.Node) bool {
+				cl, ok := m.(*ast.CompositeLit)
+				if !ok || namedName(ginfo.TypeOf(cl)) != "CueInput" {
+					return true
+				}
+				for _, el := range cl.Elts {
+					kv, ok := el.(*ast.KeyValueExpr)
+					if !ok || exprString(kv.Key) != "InputBase" {
+						continue
+					}
+					lits++
+					id, isID := ast.Unparen(kv.Value).(*ast.Ident)
+					if !isID || !emptied[objOf(ginfo, id)] {
+						bad++
+					}
+				}
+				return true
+			})
+			// what LoadSchemas returns on success goes through one FilterSchemas over everything that was loaded
+			filtersAll := false
+			ast.Inspect(load.Body, func(m ast.Node) bool {
+				rs, ok := m.(*ast.ReturnStmt)
+				if !ok || len(rs.Results) == 0 {
+					return true
+				}
+				c, ok := ast.Unparen(rs.Results[0]).(*ast.CallExpr)
+				if !ok {
+					return true
+				}
+				f := callee(ginfo, c)
+				fd, _ := ctx.DeclOf(f)
+				if fd == nil || fd.Body == nil {
+					return true
+				}
+				ast.Inspect(fd.Body, func(k ast.Node) bool {
+					if pc, ok := k.(*ast.CallExpr); ok {
+						if pf := callee(ginfo, pc); pf != nil && pf.Name() == "Process" && len(pc.Args) == 1 {
+							if sig, ok := pf.Type().(*types.Signature); ok && sig.Recv() != nil && namedName(sig.Recv().Type()) == "FilterSchemas" {
+								if id, ok := ast.Unparen(pc.Args[0]).(*ast.Ident); ok {
+									if v, ok := objOf(ginfo, id).(*types.Var); ok && v.Pos() >= fd.Type.Pos() && v.Pos() <= fd.Type.End() {
+										filtersAll = true
+									}
+								}
+							}
+						}
+					}
+					return true
+				})
+				return true
+			})
+			if lits == 0 {
+				r.Undecided("anchor changed: KindRegistryInput.LoadSchemas builds no CueInput")
+			} else {
+				n++
+				r.Check(bad == 0 && filtersAll, "siblings/registry-filter-spans-packages", "codegen.KindRegistryInput.LoadSchemas applies allowed_objects", load.Pos(), "the per-kind loaders get no allowed_objects and one FilterSchemas runs over everything the registry gave",
+					"a kind registry hands its allowed_objects to every per-kind loader, each of which filters one package on its own: `allowed_objects: [spec]` keeps dashboard.spec and empties package common, which spec refers to — dangling references")
+			}
+		}
+	}
+	r.Count("hunted clauses of the reference rules (6th round)", n)
+	r.Floor("hunted clauses of the reference rules (6th round)", 3)
 }
